@@ -149,6 +149,16 @@ func c06Check(c *oracleCtx, src string, indents []string, steer bool) {
 					c.violation("option-order", "WithPrettyPrint(indent option, WithSemi) and WithPrettyPrint(WithSemi, indent option) give different output: an indentation option changes more than leading white space", i)
 					continue
 				}
+				// a Compiler that was configured differently before and is configured again behaves like a fresh one
+				if rc := compilerReconfigured(cfg); rc != nil {
+					if alt := rc.Compile(prog).Code; alt != out {
+						i := inp(cfg, out)
+						i["reconfigured"] = oaClip(alt, 600)
+						i["history"] = "compiler.New().WithPrettyPrint(WithSemi(<the other value>), WithTabs()), then WithPrettyPrint(<only the options of this configuration that differ from the defaults>)"
+						c.violation("reconfigured-differs", "a Compiler configured a second time formats differently from a fresh Compiler with the same options: "+firstDiff(out, alt), i)
+						continue
+					}
+				}
 				cls := c06Class(src, cfg, prog)
 				if cls != "" && steer {
 					c.bump("steered-away:" + cls)
